@@ -1,19 +1,33 @@
 // Property monitor for C16, written against the property text and independent of
-// the model and of the code's cursor strings: exclusions are parsed into
-// structured paths (key steps / "any element" steps) by the parser below and
-// matched step by step against the structured path of every leaf.
+// the model and of the code's cursor strings.
+//
+// What an exclusion denotes in a given document is found by CONSUMING the
+// exclusion text along the document (".key" enters the member `key` of an object,
+// "[]" enters every element of an array) — the code under test and the model go
+// the other way (they render a cursor for every node and compare strings).
 //
 //   - structure: same nesting, same keys per object, same array lengths;
 //   - a leaf on or under a path denoted by an exclusion (in a notation supported
 //     at that call site) is verbatim;
 //   - every other string / number / boolean is replaced by the digest of its
 //     text (null may stay null or become the digest of "null": the property text
-//     lists strings, numbers and booleans only).
+//     lists strings, numbers and booleans only);
+//   - one exclusion keeps values under ONE path only (clause "never exposes a
+//     value at a different path").
 //
-// Out of the monitor's scope (skipped, counted): documents in which an object
-// repeats a key, and documents with keys containing '.' or '[' (the exclusion
-// notations can not express such keys unambiguously) — the same side conditions
-// as in the theorems.
+// Two open findings are classified with their own signatures:
+//
+//	exposed:ambiguous-key-notation   (F-C16c) the text of an exclusion can be read
+//	    as two different paths of the document (a key contains '.' or '[') and
+//	    values are kept in clear under more than one of them;
+//	structure:repeated-key-dropped   (F-C16d) an object that repeats a key comes
+//	    back with one member per distinct key.
+//
+// Documents with repeated keys can not be compared position by position; for
+// them the monitor checks the structure (with the tolerance above) and the
+// safety half of the property over the OUTPUT: every output leaf is the digest
+// of an input leaf at the same path, or an input leaf at the same path that is
+// on/under a denoted path.
 package main
 
 import (
@@ -24,14 +38,25 @@ import (
 	c "verifharness/common"
 )
 
+const (
+	sigAmbiguous = "exposed:ambiguous-key-notation"
+	sigDupKeys   = "structure:repeated-key-dropped"
+)
+
 type exclSpec struct {
 	raw     string
-	path    []step
-	ok      bool // denotes a path
-	lenient bool // notation not (necessarily) supported at this call site: honouring it is optional
+	text    string   // body-relative text (what has to be matched against the document)
+	ok      bool     // written in a notation that can denote a body path at this call site
+	lenient bool     // notation not (necessarily) supported at this call site: honouring it is optional
+	paths   [][]step // the distinct node paths of the document the text can be read as
+	// kept leaves per denoted path (index into paths), for the one-path clause
+	keptUnder map[int]string
 }
 
-// parsePath: ( "." key | "[]" )*, key = longest run without '.' and '['.
+func (sp *exclSpec) ambiguous() bool { return len(sp.paths) >= 2 }
+
+// parsePath: ( "." key | "[]" )*, key = longest run without '.' and '['.  Used
+// only for the distribution tag "excluded-name-also-elsewhere".
 func parsePath(s string) ([]step, bool) {
 	p := []step{}
 	for i := 0; i < len(s); {
@@ -53,13 +78,47 @@ func parsePath(s string) ([]step, bool) {
 	return p, true
 }
 
+// matchNodes: the distinct structured paths of the nodes of doc reached by
+// consuming text along the document.
+func matchNodes(doc *Node, text string) [][]step {
+	var out [][]step
+	seen := map[string]bool{}
+	var rec func(n *Node, rest string, path []step)
+	rec = func(n *Node, rest string, path []step) {
+		if rest == "" {
+			id := showPath(path)
+			if !seen[id] {
+				seen[id] = true
+				out = append(out, append([]step{}, path...))
+			}
+			return
+		}
+		switch n.Kind {
+		case kObj:
+			for i, key := range n.K {
+				if strings.HasPrefix(rest, "."+key) {
+					rec(n.A[i], rest[1+len(key):], append(append([]step{}, path...), step{key: key}))
+				}
+			}
+		case kArr:
+			if strings.HasPrefix(rest, "[]") {
+				for _, ch := range n.A {
+					rec(ch, rest[2:], append(append([]step{}, path...), step{any: true}))
+				}
+			}
+		}
+	}
+	rec(doc, text, nil)
+	return out
+}
+
 const (
 	jpRequest  = "$.request.body"
 	jpResponse = "$.response.body"
 )
 
-func denotation(k *Case, e string) exclSpec {
-	sp := exclSpec{raw: e}
+func denotation(k *Case, doc *Node, e string) *exclSpec {
+	sp := &exclSpec{raw: e, keptUnder: map[int]string{}}
 	if k.Suite == "collector" {
 		mine := jpResponse
 		if k.Request {
@@ -67,28 +126,49 @@ func denotation(k *Case, e string) exclSpec {
 		}
 		switch {
 		case strings.HasPrefix(e, mine):
-			sp.path, sp.ok = parsePath(e[len(mine):])
+			sp.text, sp.ok = e[len(mine):], true
 		case strings.HasPrefix(e, "$"):
 			// another part of the transaction (other direction, headers, ...)
 		default:
 			// plain cursor notation given to the collector
-			sp.path, sp.ok = parsePath(e)
-			sp.lenient = true
+			sp.text, sp.ok, sp.lenient = e, true, true
 		}
-		return sp
+	} else {
+		switch {
+		case strings.HasPrefix(e, jpRequest):
+			sp.text, sp.ok, sp.lenient = e[len(jpRequest):], true, true
+		case strings.HasPrefix(e, jpResponse):
+			sp.text, sp.ok, sp.lenient = e[len(jpResponse):], true, true
+		case strings.HasPrefix(e, "$"):
+		default:
+			sp.text, sp.ok = e, true
+		}
 	}
-	switch {
-	case strings.HasPrefix(e, jpRequest):
-		sp.path, sp.ok = parsePath(e[len(jpRequest):])
-		sp.lenient = true
-	case strings.HasPrefix(e, jpResponse):
-		sp.path, sp.ok = parsePath(e[len(jpResponse):])
-		sp.lenient = true
-	case strings.HasPrefix(e, "$"):
-	default:
-		sp.path, sp.ok = parsePath(e)
+	if sp.ok {
+		sp.paths = matchNodes(doc, sp.text)
 	}
 	return sp
+}
+
+// ambiguityFlags: the classifier of finding F-C16c per exclusion that reaches
+// ObfuscateJSON at this call site (all of them for the direct API, those with
+// the prefix of the direction for the collector), in order.  Tied to the Coq
+// predicate [ambiguous] by the suite "classify".
+func ambiguityFlags(k *Case, doc *Node) []bool {
+	flags := []bool{}
+	for _, e := range k.Excl {
+		if k.Suite == "collector" {
+			mine := jpResponse
+			if k.Request {
+				mine = jpRequest
+			}
+			if !strings.HasPrefix(e, mine) {
+				continue
+			}
+		}
+		flags = append(flags, denotation(k, doc, e).ambiguous())
+	}
+	return flags
 }
 
 func isPrefixPath(p, q []step) bool {
@@ -104,23 +184,24 @@ func isPrefixPath(p, q []step) bool {
 }
 
 type monResult struct {
-	hits    []c.Hit
-	tags    []string
-	kept    int
-	hidden  int
-	skipped string
+	hits   []c.Hit
+	tags   []string
+	kept   int
+	hidden int
 }
 
 type mon struct {
 	k     *Case
-	specs []exclSpec
+	specs []*exclSpec
 	hash  func(string) string
 	res   monResult
 	sigs  map[string]bool
 }
 
 func (m *mon) hit(sig, demanded, observed string) {
-	sig += "@" + m.k.Suite
+	if sig != sigAmbiguous && sig != sigDupKeys {
+		sig += "@" + m.k.Suite
+	}
 	if m.sigs[sig] {
 		return // one hit per root-cause class and case is enough
 	}
@@ -132,17 +213,18 @@ func monitor(k *Case, doc, out *Node) monResult {
 	h := hasherOf(k.Hasher)
 	m := &mon{k: k, sigs: map[string]bool{}, hash: func(s string) string { return h.HashBytes([]byte(s)) }}
 	for _, e := range k.Excl {
-		m.specs = append(m.specs, denotation(k, e))
+		m.specs = append(m.specs, denotation(k, doc, e))
 	}
 	// distribution: does the name an exclusion ends with also occur elsewhere?
 	collision := false
 	for _, sp := range m.specs {
-		if !sp.ok || len(sp.path) == 0 {
+		path, ok := parsePath(sp.text)
+		if !sp.ok || !ok || len(path) == 0 {
 			continue
 		}
-		last := sp.path[len(sp.path)-1]
+		last := path[len(path)-1]
 		doc.walk(nil, func(p []step, _ *Node) {
-			if len(p) > 0 && p[len(p)-1] == last && !isPrefixPath(sp.path, p) {
+			if len(p) > 0 && p[len(p)-1] == last && !isPrefixPath(path, p) {
 				collision = true
 			}
 		})
@@ -150,28 +232,36 @@ func monitor(k *Case, doc, out *Node) monResult {
 	if collision {
 		m.res.tags = append(m.res.tags, "excluded-name-also-elsewhere")
 	}
-	switch {
-	case doc.hasDupKeys():
-		m.res.skipped = "repeated-keys"
-	case doc.hasUncleanKeys():
-		m.res.skipped = "keys-with-dot-or-bracket"
+	for _, sp := range m.specs {
+		if sp.ambiguous() {
+			m.res.tags = append(m.res.tags, "ambiguous-exclusion")
+			break
+		}
 	}
-	if m.res.skipped != "" {
-		// still classify kept/hidden for the non-triviality rule, without judging
+	if doc.hasUncleanKeys() {
+		m.res.tags = append(m.res.tags, "keys-with-dot-or-bracket")
+	}
+	if doc.hasDupKeys() {
+		m.res.tags = append(m.res.tags, "repeated-keys")
+		for _, p := range m.shapeDup(doc, out, nil) {
+			m.hit(p.sig, p.demanded, p.observed)
+		}
+		m.safety(doc, out)
 		m.count(doc, out)
 		return m.res
 	}
 	m.compare(doc, out, nil)
+	m.onePath()
 	if m.res.kept > 0 {
 		m.res.tags = append(m.res.tags, "some-leaf-kept")
 	}
 	return m.res
 }
 
-// count: kept/hidden tallies for skipped documents (no verdicts).
+// count: kept/hidden tallies where leaves are not judged one by one.
 func (m *mon) count(in, out *Node) {
 	if in.isLeaf() {
-		if out != nil && sameLeaf(in, out) {
+		if out != nil && out.isLeaf() && sameLeaf(in, out) && !m.hiddenOK(in, out) {
 			m.res.kept++
 		} else {
 			m.res.hidden++
@@ -240,7 +330,7 @@ func (m *mon) hiddenOK(in, out *Node) bool {
 }
 
 // cursorText renders a structured path in the plain notation (used only to
-// classify an exposure, never to decide whether there is one).
+// classify an exposure and by the generators, never to decide whether there is one).
 func cursorText(p []step) string {
 	var sb strings.Builder
 	for _, s := range p {
@@ -253,17 +343,47 @@ func cursorText(p []step) string {
 	return sb.String()
 }
 
-func (m *mon) compare(in, out *Node, path []step) {
-	strict, lenient := false, false
+// coverage of a node path by the exclusions: strict = a supported, unambiguous
+// exclusion denotes it or an ancestor through keys without '.' / '[' (the leaf
+// MUST be verbatim); lenient = an exclusion in an optional notation, an ambiguous
+// one, or a reading through a key with '.' / '[' does (it MAY be).
+func (m *mon) coverage(path []step) (strict, lenient bool, amb []ambRef) {
 	for _, sp := range m.specs {
-		if sp.ok && isPrefixPath(sp.path, path) {
-			if sp.lenient {
+		for i, dp := range sp.paths {
+			if !isPrefixPath(dp, path) {
+				continue
+			}
+			switch {
+			case sp.ambiguous():
 				lenient = true
-			} else {
+				amb = append(amb, ambRef{sp, i})
+			case sp.lenient || oddKeyOn(dp):
+				// a reading that goes through a key containing '.' / '[' is optional: a
+				// notation with an escaping rule would not read the text that way
+				lenient = true
+			default:
 				strict = true
 			}
 		}
 	}
+	return
+}
+
+func oddKeyOn(p []step) bool {
+	for _, s := range p {
+		if !s.any && strings.ContainsAny(s.key, ".[") {
+			return true
+		}
+	}
+	return false
+}
+
+type ambRef struct {
+	sp  *exclSpec
+	idx int
+}
+
+func (m *mon) compare(in, out *Node, path []step) {
 	if !in.isLeaf() {
 		if out.Kind != in.Kind {
 			m.hit("structure:kind", fmt.Sprintf("%s stays %s", showPath(path), in.show()),
@@ -301,6 +421,7 @@ func (m *mon) compare(in, out *Node, path []step) {
 		m.hit("structure:kind", fmt.Sprintf("%s stays a primitive", showPath(path)), "output has "+out.show())
 		return
 	}
+	strict, lenient, amb := m.coverage(path)
 	verbatim := sameLeaf(in, out)
 	hidden := m.hiddenOK(in, out)
 	digest := m.hash(leafText(in))
@@ -315,6 +436,11 @@ func (m *mon) compare(in, out *Node, path []step) {
 	case lenient:
 		if verbatim && !hidden {
 			m.res.kept++
+			for _, r := range amb {
+				if _, ok := r.sp.keptUnder[r.idx]; !ok {
+					r.sp.keptUnder[r.idx] = showPath(path) + " = " + out.show()
+				}
+			}
 			return
 		}
 		if hidden {
@@ -345,4 +471,204 @@ func (m *mon) compare(in, out *Node, path []step) {
 		}
 		m.hit("not-hashed", dem, "output has "+out.show())
 	}
+}
+
+// onePath: an exclusion whose text can be read as several paths of the document
+// must not keep values under more than one of them (finding F-C16c when it does).
+func (m *mon) onePath() {
+	for _, sp := range m.specs {
+		if !sp.ambiguous() || len(sp.keptUnder) < 2 {
+			continue
+		}
+		var obs []string
+		for i, dp := range sp.paths {
+			if v, ok := sp.keptUnder[i]; ok {
+				obs = append(obs, fmt.Sprintf("under %s: %s", showPath(dp), v))
+			}
+		}
+		m.hit(sigAmbiguous,
+			fmt.Sprintf("exclusion %q keeps values on or under one path only (its text reads as %d different paths of this document)",
+				sp.raw, len(sp.paths)),
+			"kept in clear "+strings.Join(obs, "; "))
+	}
+}
+
+// ---------------------------------------------------------------- repeated keys
+
+type problem struct{ sig, demanded, observed string }
+
+func distinctKeys(ks []string) []string {
+	seen := map[string]bool{}
+	var out []string
+	for _, k := range ks {
+		if !seen[k] {
+			seen[k] = true
+			out = append(out, k)
+		}
+	}
+	return out
+}
+
+func sameStrings(a, b []string) bool {
+	if len(a) != len(b) {
+		return false
+	}
+	for i := range a {
+		if a[i] != b[i] {
+			return false
+		}
+	}
+	return true
+}
+
+func sameKeySet(a, b []string) bool {
+	if len(a) != len(b) {
+		return false
+	}
+	s := map[string]int{}
+	for _, k := range a {
+		s[k]++
+	}
+	for _, k := range b {
+		s[k]--
+	}
+	for _, v := range s {
+		if v != 0 {
+			return false
+		}
+	}
+	return true
+}
+
+// shapeDup: structure check for documents with repeated keys (no side effects;
+// returns the problems found).  An object that repeats a key may come back
+// (a) with the same sequence of keys, or (b) with one member per distinct key —
+// (b) is finding F-C16d; anything else is an unknown structure failure.
+func (m *mon) shapeDup(in, out *Node, path []step) []problem {
+	if in.isLeaf() {
+		if !out.isLeaf() {
+			return []problem{{"structure:kind", fmt.Sprintf("%s stays a primitive", showPath(path)), "output has " + out.show()}}
+		}
+		return nil
+	}
+	if out.Kind != in.Kind {
+		return []problem{{"structure:kind", fmt.Sprintf("%s stays %s", showPath(path), in.show()), "output has " + out.show()}}
+	}
+	var ps []problem
+	if in.Kind == kArr {
+		if len(out.A) != len(in.A) {
+			return []problem{{"structure:length", fmt.Sprintf("%s keeps its %d members", showPath(path), len(in.A)),
+				fmt.Sprintf("output has %d", len(out.A))}}
+		}
+		for i := range in.A {
+			ps = append(ps, m.shapeDup(in.A[i], out.A[i], append(append([]step{}, path...), step{any: true}))...)
+		}
+		return ps
+	}
+	dk := distinctKeys(in.K)
+	switch {
+	case sameStrings(in.K, out.K): // (a), also every object without repeated keys in the usual order
+		for i := range in.A {
+			ps = append(ps, m.shapeDup(in.A[i], out.A[i], append(append([]step{}, path...), step{key: in.K[i]}))...)
+		}
+	case len(dk) == len(in.K) && sameKeySet(in.K, out.K): // no repeated key here, other order
+		pos := map[string]int{}
+		for i, key := range out.K {
+			pos[key] = i
+		}
+		for i, key := range in.K {
+			ps = append(ps, m.shapeDup(in.A[i], out.A[pos[key]], append(append([]step{}, path...), step{key: key}))...)
+		}
+	case len(dk) < len(in.K) && sameKeySet(dk, out.K): // (b)
+		ps = append(ps, problem{sigDupKeys,
+			fmt.Sprintf("object %s keeps its %d members (keys %q)", showPath(path), len(in.K), in.K),
+			fmt.Sprintf("output has %d members (keys %q): one per distinct key", len(out.K), out.K)})
+		for j, key := range out.K {
+			// the member may stand for any of the occurrences of the key
+			var best []problem
+			first := true
+			for i := range in.K {
+				if in.K[i] != key {
+					continue
+				}
+				q := m.shapeDup(in.A[i], out.A[j], append(append([]step{}, path...), step{key: key}))
+				if first || unknownProblems(q) < unknownProblems(best) {
+					best, first = q, false
+				}
+			}
+			ps = append(ps, best...)
+		}
+	default:
+		ps = append(ps, problem{"structure:keys", fmt.Sprintf("object %s keeps its keys %q", showPath(path), in.K),
+			fmt.Sprintf("output has keys %q", out.K)})
+	}
+	return ps
+}
+
+func unknownProblems(ps []problem) int {
+	n := 0
+	for _, p := range ps {
+		if p.sig != sigDupKeys {
+			n++
+		}
+	}
+	return n
+}
+
+// leavesAt: the primitive leaves of doc at the structured path p.
+func leavesAt(doc *Node, p []step) []*Node {
+	cur := []*Node{doc}
+	for _, s := range p {
+		var next []*Node
+		for _, n := range cur {
+			switch {
+			case s.any && n.Kind == kArr:
+				next = append(next, n.A...)
+			case !s.any && n.Kind == kObj:
+				for i, key := range n.K {
+					if key == s.key {
+						next = append(next, n.A[i])
+					}
+				}
+			}
+		}
+		cur = next
+	}
+	var out []*Node
+	for _, n := range cur {
+		if n.isLeaf() {
+			out = append(out, n)
+		}
+	}
+	return out
+}
+
+// safety: every primitive leaf of the OUTPUT at structured path q is the digest
+// of an input leaf at q, or an input leaf at q that lies on or under a path
+// denoted by some exclusion (any notation).
+func (m *mon) safety(doc, out *Node) {
+	out.walk(nil, func(q []step, o *Node) {
+		if !o.isLeaf() {
+			return
+		}
+		strict, lenient, _ := m.coverage(q)
+		cands := leavesAt(doc, q)
+		for _, in := range cands {
+			if m.hiddenOK(in, o) {
+				return
+			}
+			if (strict || lenient) && sameLeaf(in, o) {
+				return
+			}
+		}
+		dem := fmt.Sprintf("output leaf %s is the digest of an input leaf at that path, or an input leaf at that path on/under a path denoted by an exclusion of %q",
+			showPath(q), m.k.Excl)
+		for _, in := range cands {
+			if sameLeaf(in, o) {
+				m.hit("exposed:other", dem, "kept verbatim: "+o.show())
+				return
+			}
+		}
+		m.hit("not-hashed", dem, fmt.Sprintf("output has %s; input leaves at that path: %d", o.show(), len(cands)))
+	})
 }
